@@ -44,6 +44,7 @@ type VerifC17Case struct {
 	Adds       []int `json:"adds"`   // entities appended to the source before run 2, 3, ...
 	Crons      int   `json:"crons"`  // further externally triggered runs once no re-run is pending
 	Timer      bool  `json:"timer"`  // let the real time.AfterFunc fire (40 ms) instead of simulating the timer
+	Full       bool  `json:"full"`   // trigger with jobType fullsync (FullSyncPipeline)
 	Burst      int   `json:"burst"`  // > 0: that many externally triggered runs 10 ms apart while re-runs are pending (real timer, 200 ms)
 }
 
@@ -406,10 +407,14 @@ func (env *VerifC17Env) runJob(c VerifC17Case) (obs VerifC17Obs) {
 	if c.Rerun {
 		hs = append(hs, fmt.Sprintf(`{"errorHandler":"reRun","maxRetries":%d,"retryDelay":%d}`, c.MaxRetries, c.RetryDelay))
 	}
+	jobType := JobTypeIncremental
+	if c.Full {
+		jobType = JobTypeFull
+	}
 	jobJSON := fmt.Sprintf(`{"id":"%s","title":"%s","batchSize":%d,
-		"triggers":[{"triggerType":"cron","jobType":"incremental","schedule":"@every 2000s","onError":[%s]}],
+		"triggers":[{"triggerType":"cron","jobType":"%s","schedule":"@every 2000s","onError":[%s]}],
 		"source":{"Type":"DatasetSource","Name":"%s"},
-		"sink":{"Type":"DevNullSink"}}`, id, id, c.Batch, strings.Join(hs, ","), dsName)
+		"sink":{"Type":"DevNullSink"}}`, id, id, c.Batch, jobType, strings.Join(hs, ","), dsName)
 	jc, err := env.sched.Parse([]byte(jobJSON))
 	if err != nil {
 		obs.Outcome = "setup-error"
